@@ -2,9 +2,11 @@
 //! current working tree) and records what they do.  No oracle lives here;
 //! the traces are judged by TLC against the TLA+ specification.
 
+mod adapters;
 mod obs;
 mod util;
 mod vec;
+mod vecops;
 
 fn arg_after(args: &[String], flag: &str) -> Option<String> {
     args.iter().position(|a| a == flag).and_then(|i| args.get(i + 1)).cloned()
@@ -25,6 +27,8 @@ fn main() {
             let nv = arg_after(&args, "--nv").map(|s| s.parse().unwrap()).unwrap_or(3);
             obs::replay(&args[2], &args[3], nv);
         }
+        "adapters-replay" => adapters::replay(&args[2], &args[3]),
+        "vecops" => vecops::run(&args[2], &args[3]),
         "vec-replay" => vec::replay(&args[2], &args[3]),
         other => {
             eprintln!("harness: unknown command {other}");
